@@ -78,12 +78,23 @@ def crash_frame(out):
     if i < 0 and not (out.startswith("panic:") or out.startswith("fatal error:")):
         return None
     lines = out[max(i, 0):].splitlines()
+    if lines and "test timed out" in lines[0]:
+        return None
+    dep, harness = None, False
     for j, ln in enumerate(lines[:-1]):
         if ln.startswith("connectrpc.com/conformance/") and "zz_verif" not in lines[j + 1] and "zz_verif" not in ln \
                 and "/verifutil" not in ln and "testing.tRunner" not in ln:
             return re.sub(r"\((0x[0-9a-f]+|\.\.\.|[, ?{}\[\]])*\)$", "", ln.strip())
+        if "zz_verif" in ln or "/verifutil" in ln:
+            harness = True
+        if dep is None and "/pkg/mod/" in lines[j + 1] and not ln.startswith("created by"):
+            dep = re.sub(r"\((0x[0-9a-f]+|\.\.\.|[, ?{}\[\]])*\)$", "", ln.strip())
         if ln.startswith("goroutine ") and j > 3 and "[running]" not in ln:
             break   # only the crashing goroutine counts
+    # a goroutine of a dependency (a decoder's worker, say) that panics with no harness frame on its stack: the
+    # repository's code drives the dependency; reproducibility is required by the callers
+    if dep and not harness:
+        return "a goroutine of a dependency: " + dep
     return None
 
 
